@@ -50,6 +50,7 @@ class Interp:
         self.w = world
         self.reg = registry
         self.obligs: list[Oblig] = []
+        self.images = {}      # image sets built from comprehensions over str-keyed mappings (see builtins._image_set)
         self.cur = None            # contract under verification
         self.cur_q = None
         self.prop = "?"
@@ -119,6 +120,8 @@ class Interp:
             self.stats["feas_resets"] = self.stats.get("feas_resets", 0) + 1
             sv = None
         self.stats["feas_time"] = self.stats.get("feas_time", 0.0) + dt
+        if dt > 1.0 and os.environ.get("PYVC_SLOW"):
+            print(f"[slow feasibility {dt:.1f}s -> {r}] cond={str(cond)[:300]} trace={st.trace[-4:]}", flush=True)
         if dt > 0.5 and os.environ.get("PYVC_DUMP") and not getattr(self, "_dumped", False):
             self._dumped = True
             open(os.environ["PYVC_DUMP"], "w").write(sv.to_smt2())
@@ -167,8 +170,10 @@ class Interp:
 
     def oblige(self, st, name, goal, kind="post", extra=None, clause=None, site_env=None):
         if self.cur is not None and self.cur.tags:
-            base = name.split(":", 1)[1] if ":" in name else name
-            tg = self.cur.tags.get(base) or self.cur.tags.get(name)
+            parts = name.split(":")
+            tg = None
+            for i_ in range(len(parts)):
+                tg = tg or self.cur.tags.get(":".join(parts[i_:]))
             if tg is not None and self.prop not in tg:
                 return
         if extra is None and self.cur_entry is not None:
@@ -1172,10 +1177,11 @@ class Interp:
             mm = _re.match(r"(\d+)\.(\d+)\.(\d+)", self.w.facts["python"])
             self.stats["builtins_used"].add("sys.version_info of the interpreter that runs urllib3 (facts probe)")
             return Tup([Sym(pyint(int(x))) for x in mm.groups()])
-        if m.name in ("errno",):
+        if m.name in ("errno", "ssl"):
             import importlib
             val = getattr(importlib.import_module(m.name), name, None)
-            if isinstance(val, int):
+            if isinstance(val, int) and not isinstance(val, bool):
+                val = int(val)          # IntEnum members (ssl.CERT_NONE ...) by their integer value
                 self.stats["builtins_used"].add(f"constant {full} read from the engine interpreter's stdlib (same platform)")
                 return Sym(pyint(val))
         if full == "typing.TYPE_CHECKING":
@@ -1228,7 +1234,7 @@ class Interp:
         t = obj.t
         if obj.hint:
             r = self.w.find_attr(obj.hint, name)
-            if r and r[1]["kind"] == "property":
+            if r and r[1]["kind"] == "property" and (r[0], name) not in self.reg.plain_fields:
                 sq = f"{r[0]}.{name}"
                 fi = self.w.setters.get(sq)
                 if fi is None:
@@ -1263,6 +1269,15 @@ class Interp:
         if isinstance(f, BuiltinV):
             c = self.reg.contracts.get(f.name)
             if c is not None:
+                if self.cur is not None and not fr.spec and fr.depth == 0:
+                    for callee, nm, expr in self.cur.site_asserts:
+                        base, _, ordn = callee.partition("#")
+                        if f.name.endswith(base) and (not ordn or (node is not None and self.call_ordinal(fr, node, base.split(".")[-1]) == int(ordn))):
+                            env, err = self.spec_env_for(c, None, args, kwargs, st, fr)
+                            env = dict(env); env.update({"caller_" + k_: v for k_, v in st.env.items()})
+                            g_ = self.spec_bool(st, expr, env, old=st.old)
+                            self.oblige(st, f"site:{nm}", g_, kind="site", clause=expr, site_env=env)
+                            st.pc.append(g_)
                 return self.apply_contract(st, c, None, args, kwargs, fr, k, node)
             return self.B.call_builtin(self, st, f.name, args, kwargs, fr, k)
         if isinstance(f, Sym):
@@ -1278,7 +1293,8 @@ class Interp:
             return self.inline(st, f, args, kwargs, fr, k, spec=True)
         if self.cur is not None:
             for callee, nm, expr in self.cur.site_asserts:
-                if q.endswith(callee):
+                base, _, ordn = callee.partition("#")
+                if q.endswith(base) and (not ordn or (node is not None and fr.depth == 0 and self.call_ordinal(fr, node, base.split(".")[-1]) == int(ordn))):
                     self._site_assert(st, f, args, kwargs, fr, nm, expr)
         if c is not None and (c.mode == "assumed" or self.cur is None or q not in self.cur.inline_calls) and not (
                 c.mode == "verify" and c is self.cur and False):
@@ -1500,6 +1516,18 @@ class Interp:
         s0 = st.fork()
         s0.heap = dict(st.old[0]); s0.frontier = st.old[1]; s0.ghost = dict(st.old[2])
         return self.spec_bool(s0, expr, env, old=st.old)
+
+    def call_ordinal(self, fr, node, attr):
+        """1-based position (source order) of this call among the calls `<x>.<attr>(...)` of the function under verification"""
+        fi = self.w.funcs.get(self.cur_q)
+        if fi is None:
+            return None
+        calls = [n for n in ast.walk(fi.node) if isinstance(n, ast.Call) and isinstance(n.func, ast.Attribute) and n.func.attr == attr]
+        calls.sort(key=lambda n: (n.lineno, n.col_offset))
+        for i, n in enumerate(calls):
+            if n.lineno == node.lineno and n.col_offset == node.col_offset:
+                return i + 1
+        return None
 
     def _site_assert(self, st, f, args, kwargs, fr, nm, expr):
         env, err = self.spec_env_for(self.reg.contracts.get(f.q) or dsl.Contract(f.q), f, args, kwargs, st, fr)
